@@ -52,6 +52,11 @@ type Obs struct {
 	ReOpensOld   bool `json:"reOpensOld"`
 	ReEcho       bool `json:"reEcho"`
 	ReStoredEq   bool `json:"reStoredEq"`
+	// third stage (op.reroot): the server's roots are replaced, the node fetches again with the SAME credentials
+	RrIssued     bool `json:"rrIssued"`
+	RrOpens      bool `json:"rrOpens"`
+	RrSigCur     bool `json:"rrSigCur"`
+	RrChainRoots bool `json:"rrChainRoots"`
 	Msg          string `json:"msg"`
 }
 
@@ -361,6 +366,8 @@ func one(op map[string]any, ln *Line, seed int64) {
 		}
 		respUse.EncryptedNodeCredentials = ct
 	}
+	// the node's credentials as they were before activation (a machine image with pre-generated credentials relaunched)
+	credsBefore := proto.Clone(creds).(*types.NodeCredentials)
 	_, herr := subject.HandleFetchNodeCredentialsResponse(ctx, nodeStore, respUse, handleOpts...)
 	if subst != "none" {
 		ln.Obs.Refused = herr != nil
@@ -398,6 +405,52 @@ func one(op map[string]any, ln *Line, seed int64) {
 		ln.Obs.Msg = "dial: " + derr.Error()
 	}
 	ln.Res = "issued"
+	if boolean(op, "reroot") && (flow == "wrapped" || flow == "rewrapped") && be != "storeonce" {
+		// ---- the server's roots are replaced; the node registers again with the very same credentials ----
+		if err := srv.ReinitRoots(); err != nil {
+			ln.Obs.Msg = "reinit: " + err.Error()
+			return
+		}
+		req3, err := credsBefore.CreateFetchNodeCredentialsRequest(ctx, reqOpts...)
+		if err != nil {
+			ln.Obs.Msg = "third request: " + err.Error()
+			return
+		}
+		if flow == "rewrapped" {
+			// the intermediate's own record is still there (records are not tied to roots)
+			var info3 types.FetchNodeCredentialsInfo
+			_ = proto.Unmarshal(req3.Bundle, &info3)
+			regInfo, err := registration.DecryptWrappedRegistrationInfo(ctx, &info3, nodeenrollment.WithRegistrationWrapper(w.Wrappers["W2"]))
+			if err != nil {
+				ln.Obs.Msg = "third unwrap: " + err.Error()
+				return
+			}
+			ct, err := nodeenrollment.EncryptMessage(ctx, regInfo, srv.Nodes["kmid"].Creds)
+			if err != nil {
+				ln.Obs.Msg = "third rewrap: " + err.Error()
+				return
+			}
+			req3.RewrappedWrappingRegistrationFlowInfo = ct
+			req3.RewrappingKeyId = w.CertKeys["kmid"].KeyId
+		}
+		resp3, err := registration.FetchNodeCredentials(ctx, w.Store, req3, append(serverOpts, fopts...)...)
+		if err != nil || resp3 == nil || len(resp3.EncryptedNodeCredentials) == 0 {
+			return // refusing is allowed
+		}
+		ln.Obs.RrIssued = true
+		nc := &types.NodeCredentials{CertificatePublicKeyPkix: creds.CertificatePublicKeyPkix, EncryptionPrivateKeyBytes: creds.EncryptionPrivateKeyBytes, EncryptionPrivateKeyType: types.KEYTYPE_X25519,
+			ServerEncryptionPublicKeyBytes: resp3.ServerEncryptionPublicKeyBytes, ServerEncryptionPublicKeyType: resp3.ServerEncryptionPublicKeyType}
+		in3 := new(types.NodeCredentials)
+		ln.Obs.RrOpens = nodeenrollment.DecryptMessage(ctx, resp3.EncryptedNodeCredentials, nc, in3) == nil
+		if roots3, err := types.LoadRootCertificates(ctx, w.Inner, so()...); err == nil {
+			curPub, _ := x509.ParsePKIXPublicKey(roots3.Current.PublicKeyPkix)
+			ln.Obs.RrSigCur = ed25519.Verify(curPub.(ed25519.PublicKey), resp3.EncryptedNodeCredentials, resp3.EncryptedNodeCredentialsSignature)
+			ln.Obs.RrChainRoots = ln.Obs.RrOpens && len(in3.CertificateBundles) == 2 &&
+				bytes.Equal(in3.CertificateBundles[0].CaCertificateDer, roots3.Current.CertificateDer) &&
+				bytes.Equal(in3.CertificateBundles[1].CaCertificateDer, roots3.Next.CertificateDer)
+		}
+		return
+	}
 	if !boolean(op, "rekey") || (flow != "wrapped" && flow != "rewrapped") {
 		return
 	}
